@@ -129,12 +129,15 @@ def parse_template(path: str):
                 elif t.startswith("//@ loop "):
                     n = int(t.split()[2])
                     blk["loops"][n], i = multiline(i)
-                elif re.match(r"//@ (before|after|afterall|beforeall)(#\d+)? `", t):
-                    m0 = re.match(r"//@ (before|after|afterall|beforeall)(#\d+)? `(.*)` <<", t)
+                elif re.match(r"//@ (before|after|afterall|beforeall)(#\d+)?\?? `", t):
+                    # a trailing `?` makes the hint optional: if the anchor statement is gone the hint is dropped
+                    # (the function then has to verify without it) instead of losing the whole unit
+                    m0 = re.match(r"//@ (before|after|afterall|beforeall)(#\d+)?(\?)? `(.*)` <<", t)
+                    m0 = type("M", (), {"group": lambda self, k, _m=m0: (_m.group(1) if k == 1 else _m.group(2) if k == 2 else _m.group(4)), "opt": m0.group(3) is not None})()
                     class _M:  # keep the (where, anchor) shape; an occurrence ordinal rides on `where`
                         def __init__(self, a, b): self.a, self.b = a, b
                         def group(self, k): return self.a if k == 1 else self.b
-                    m = _M(m0.group(1) + (m0.group(2) or ""), m0.group(3))
+                    m = _M(m0.group(1) + (m0.group(2) or "") + ("?" if m0.opt else ""), m0.group(3))
                     body, i = multiline(i)
                     blk["inserts"].append((m.group(1), m.group(2), body))
                 elif t.startswith("//@ afterloop "):
@@ -304,6 +307,8 @@ def build_item(repo: str, blk: dict, report: dict):
             close = match_brace(bmask, loops[anchor][1])
             ins.append((close, "\n" + txt + "\n", "proof"))
             continue
+        optional = where.endswith("?")
+        where = where.rstrip("?")
         nth = 1
         if "#" in where:
             where, nn = where.split("#")
@@ -313,6 +318,9 @@ def build_item(repo: str, blk: dict, report: dict):
             k = body.find(anchor, k + 1)
             if k < 0:
                 break
+        if k < 0 and optional:
+            log.append(("X6", f"optional hint dropped: anchor `{anchor}` absent"))
+            continue
         if k < 0:
             raise LostAnchor(f"{key}: anchor `{anchor}` (occurrence {nth}) not found")
         ks = [k]
